@@ -1,6 +1,6 @@
 (* Properties/C20.v — statements only; every proof is `exact <lemma>`.
    C20: the binding layer maps every value to its namesake, losslessly.  The quantified objects
-   (ffi_enum_tables, ffi_struct_tables, the pinned fallbacks / aliases / constants inside them,
+   (ffi_enum_tables, ffi_struct_tables, ffi_config_tables, the pinned fallbacks / aliases / constants inside them,
    ffi_known_*_deviations, ffi_wildcard_tables, ffi_inverse_pairs) are regenerated from
    /repo/ffi/dnp3-ffi/src on every run by tools/gen/gen_ffi.py. *)
 From Coq Require Import String List Bool.
@@ -99,6 +99,23 @@ Theorem C20_struct_pins_needed : forall st, In st ffi_struct_tables ->
 Proof. exact struct_pins_needed. Qed.
 Print Assumptions C20_struct_pins_needed.
 
+(* configuration conversions (`fn convert_outstation_config`, `TryFrom<ffi::AssociationConfig>`, ...):
+   every field of the native configuration is fed by the binding accessor of the same name (or its
+   pinned alias) through a wrapper of the closed vocabulary, and that wrapper is the reviewed one of
+   that field (`Some(x)` for the request limits, never a helper that turns 0 into None) *)
+Theorem C20_config_fields_namesake_wrapped : forall ct f acc w,
+  In ct ffi_config_tables -> In (f, acc, w) (ct_rows ct) ->
+  (acc = f \/ In (f, acc) (ct_aliases ct)) /\ In w config_wrappers /\ lookup f (ct_pinned ct) = Some w.
+Proof. exact config_fields_namesake_wrapped. Qed.
+Print Assumptions C20_config_fields_namesake_wrapped.
+
+(* no stale reviewed wrapper, no configuration field assigned twice *)
+Theorem C20_config_pins_needed : forall ct, In ct ffi_config_tables ->
+  (forall f w, In (f, w) (ct_pinned ct) -> In f (map (fun r => fst (fst r)) (ct_rows ct)))
+  /\ NoDup (map (fun r => fst (fst r)) (ct_rows ct)).
+Proof. exact config_pins_needed. Qed.
+Print Assumptions C20_config_pins_needed.
+
 (* ---- non-vacuity: the quantifiers range over something ------------------------------------ *)
 
 Example C20_tables_nonempty :
@@ -138,3 +155,14 @@ Example C20_analog_input_struct :
                   ffi_struct_tables = Some st
              /\ map (fun e => fst (fst e)) (st_fields st) = ["value"; "flags"; "time"].
 Proof. eexists. split; vm_compute; reflexivity. Qed.
+
+(* the outstation configuration is among the configuration tables, with its sixteen fields; its
+   control limit is `Some(accessor)` *)
+Example C20_outstation_config_table :
+  exists ct, find_config ffi_config_tables "outstation/mod.rs::fn convert_outstation_config" = Some ct
+             /\ length (ct_rows ct) = 16%nat
+             /\ In ("maxcontrolsperrequest", "maxcontrolsperrequest", "some") (ct_rows ct)
+             /\ In ("keepalivetimeout", "keepalivetimeout", "zero-none") (ct_rows ct).
+Proof. eexists. split; [vm_compute; reflexivity|]. split; [vm_compute; reflexivity|]. split; vm_compute; tauto. Qed.
+Example C20_config_tables_nonempty : Nat.ltb 8 (length ffi_config_tables) = true.
+Proof. vm_compute. reflexivity. Qed.
